@@ -168,7 +168,7 @@ func extSlicesClone(e *Env, fr *Frame, fn *ssa.Function, args []Value, rt types.
 	}
 	// Clone(nil) is nil; otherwise a fresh array with cap >= len
 	cp := e.fresh("clonecap", sInt)
-	e.assume(mkAnd(sx(">=", cp, s.Len), sx("<=", cp, "4611686018427387904")))
+	e.assume(mkAnd(sx(">=", cp, s.Len), sx("<=", cp, "281474976710656")))
 	isNil := mkEq(s.Arr, "0")
 	return &Slice{Arr: mkIte(isNil, "0", r), Off: "0", Len: s.Len, Cap: mkIte(isNil, "0", cp), Typ: rt}
 }
